@@ -150,7 +150,9 @@ func newAutoCache(root, anchor string, dirs []string) (*autoCache, error) {
 	// so other processes of this uid can make watcher creation fail for a while: that is a
 	// state of the machine, not of the library - wait for an instance and try again.
 	for attempt := 0; ; attempt++ {
-		c, err := cdi.NewCache(cdi.WithSpecDirs(dirs...), cdi.WithAutoRefresh(true))
+		opt, reuse := withDirs(dirs)
+		c, err := cdi.NewCache(opt, cdi.WithAutoRefresh(true))
+		reuse()
 		if err != nil {
 			a.unhook()
 			return nil, err
@@ -324,4 +326,19 @@ func (a *autoCache) EventCounts() map[string]int64 {
 		m[k] = v
 	}
 	return m
+}
+
+// withDirs passes a directory list to WithSpecDirs the way many callers do - as a
+// slice they go on using - and returns a function that overwrites that slice:
+// a cache owns its configuration, the caller's later use of the slice must not
+// reach it.
+func withDirs(dirs []string) (cdi.Option, func()) {
+	tmp := make([]string, len(dirs), len(dirs)+2)
+	copy(tmp, dirs)
+	return cdi.WithSpecDirs(tmp...), func() {
+		for i := range tmp {
+			tmp[i] = "/nonexistent/reused-by-the-caller"
+		}
+		_ = append(tmp, "/nonexistent/appended-by-the-caller")
+	}
 }
